@@ -52,6 +52,10 @@ def run(chk):
                 wcases.append(("hwrite", [arg0] + ch)); meta.append((data, names))
                 sizes = [str(len(c) or 1).encode() for c in ch][:8]
                 wcases.append(("hread", [arg0, data] + sizes)); meta.append((data, names))
+                if not arg0.endswith(b"!") or True:
+                    # sources that deliver their last bytes together with io.EOF, or only short reads
+                    v = rng.choice([b"@dataerr", b"@dataerr", b"@onebyte", b"@half"]) if len(data) < 5000 else b"@dataerr"
+                    wcases.append(("hread", [arg0 + v, data] + sizes)); meta.append((data, names))
     for bad in (["sha3"], ["md5", "crc32"], [""], ["SHA256"]):
         wcases.append(("hwrite", [",".join(bad).encode(), b"abc"])); meta.append((b"abc", bad))
     impl = chk.run_impl(wcases)
@@ -63,7 +67,7 @@ def run(chk):
             chs = []; pos = 0; i = 0
             while pos < len(data):
                 k = sizes[i % len(sizes)]; chs.append(data[pos:pos + k]); pos += k; i += 1
-            mcases.append(("hread", [c[1][0].replace(b"!", b"")] + chs))
+            mcases.append(("hread", [c[1][0].split(b"@")[0].replace(b"!", b"")] + chs))
         else:
             mcases.append((c[0], [c[1][0].replace(b"!", b"")] + c[1][1:]))
     model = [complete(m) for m in chk.run_model(mcases)]
